@@ -63,7 +63,10 @@ Inductive case :=
 | KLog (rs : list result) (stop : Z) (writes : list packed)
 (* the real UniqueLogger: results fed in order, the indices of those passed downstream;
    drop = the last fresh result was offered while nobody received and the context was cancelled *)
-| KUniq (rs : list result) (drop : bool) (outs : list Z).
+| KUniq (rs : list result) (drop : bool) (outs : list Z)
+(* the logger `sx arp --json --live` builds (arpCmdOpts.getLogger: unique logger around the JSON
+   logger on standard output): results fed in order, channel closed; the bytes on standard output *)
+| KLive (rs : list result) (stream : packed).
 
 Definition fl_of (std : bool) : flavour := if std then Std else Easy.
 
@@ -146,7 +149,8 @@ Fixpoint uniq_events (rs : list (Z * result)) (drop : bool) (seen : list (list Z
    KDec:  21 acceptance differs from encoding/json; 22 decoded tree differs
    KLog:  31 the bytes written (all Write calls concatenated) differ from one line per taken result,
           in order
-   KUniq: 41 passed-on results differ from the model's first sightings *)
+   KUniq: 41 passed-on results differ from the model's first sightings
+   KLive: 51 standard output differs from the lines of the first sightings, in order *)
 Definition check_case (c : case) : list Z :=
   match c with
   | KRec kind vals id out =>
@@ -184,6 +188,10 @@ Definition check_case (c : case) : list Z :=
   | KUniq rs drop outs =>
       let evs := uniq_events (index_from 0 rs) drop [] in
       if list_eqb Z.eqb (map fst (uniq_run (fun r => res_id (snd r)) [] evs)) outs then [] else [41]
+  | KLive rs stream =>
+      let passed := uniq_run (fun r => res_id (snd r)) [] (uniq_events (index_from 0 rs) false []) in
+      let evs := map (fun r => @LResult result (snd r)) passed ++ [@LClosed result] in
+      if bytes_eqb (concat (log_results (fun r => Some (res_line r)) evs)) (unpack stream) then [] else [51]
   end.
 
 Fixpoint check_all (i : nat) (cs : list case) : list (nat * list Z) :=
